@@ -232,9 +232,17 @@ def oracle(case, zones, util_ids):
             # generated zones that exist when stream b is processed: those holding a stream that comes earlier
             earlier = {sig(x["name"], x["t_supply"], x["t_target"], x["heat_flow"]) for x in streams[:b]}
             gen_b = [q for q in gen if any(k in earlier for k in zones[q][0])]
-            cand = [q for q in tpaths + gen_b if len(q) >= len(comps) and q[-len(comps):] == comps]
-            if len(cand) == 1 and cand[0] in gen_b:
-                homes[b] = cand[0]; gen_homes[b] = cand[0]
+            # same order of resolution as for tree nodes: the full path, the path below the root, a unique suffix
+            known = tpaths + gen_b
+            if comps in known:
+                hit = comps
+            elif (tpaths[0][0],) + comps in known:
+                hit = (tpaths[0][0],) + comps
+            else:
+                cand = [q for q in known if len(q) >= len(comps) and q[-len(comps):] == comps]
+                hit = cand[0] if len(cand) == 1 else None
+            if hit is not None and hit in gen_b:
+                homes[b] = hit; gen_homes[b] = hit
     unresolved = [s for s, h in zip(streams, homes) if h is None]
     cause = None
     if tree:
